@@ -1692,6 +1692,36 @@ def uniform(repo, out):
                     continue
                 out.unsure(fn, st, 'destination of the draw not recognised')
                 continue
+            # the temporary is stored into a dictionary entry of the variable: X[key] = <... vn ...>
+            g = C.g
+            stores = [n_ for n_ in g.body_nodes(dvloop) if n_.kind == 'stmt' and isinstance(n_.ast, ast.Assign)
+                      and len(n_.ast.targets) == 1 and isinstance(n_.ast.targets[0], ast.Subscript)
+                      and isinstance(n_.ast.targets[0].value, ast.Name)
+                      and not (isinstance(n_.ast.targets[0].slice, ast.Constant) and
+                               isinstance(n_.ast.value, ast.Name))
+                      and vn in astx.names(n_.ast.value) and C.rd.defs(n_, vn) == {at}]
+            if stores:
+                wrong = [n_ for n_ in stores if not (isinstance(n_.ast.targets[0].slice, ast.Name) and
+                                                     n_.ast.targets[0].slice.id == B.key and
+                                                     B.loop_var_ok(B.key, n_))]
+                if wrong:
+                    out.bad(fn, wrong[0].ast, f'draw for `{B.key}` stored under `{astx.src(wrong[0].ast.targets[0].slice)}`',
+                            key='uniform-store')
+                    continue
+                dvh = C.at(dvloop)
+                w = g.path(g.normal_succ(at), [dvh], avoid=stores, labels=cfgm.noexc)
+                if w is not None:
+                    out.bad(fn, st, f'the draw for `{B.key}` can be dropped without being stored: ' + g.fmt_path(w),
+                            key='uniform-emit-var')
+                    continue
+                entry = [m for m, lab in g.succ[dvh] if lab == 'true']
+                w = g.path(entry, [dvh], avoid=[at], labels=cfgm.noexc)
+                if w is not None:
+                    out.bad(fn, st, 'a variable can be left out of the sample: ' + g.fmt_path(w), key='uniform-emit-var')
+                    continue
+                out.ok(fn, st, f'draw between {B.meta}[lower] and {B.meta}[upper], stored under [{B.key}] through '
+                       f'`{vn}`')
+                continue
             if emit_check(C, out, fn, vn, dvloop, caseloop, B.key, 'uniform', 'uniform sample'):
                 out.ok(fn, st, f'draw between {B.meta}[lower] and {B.meta}[upper], appended for {B.key}')
 
@@ -2941,15 +2971,39 @@ def slots(repo, out):
     for rel, qn in ((SU, 'UniformGenerator.__next__'), (AG, 'AnalysisGenerator.__next__')):
         fn = repo.func(rel, qn)
         C = ctx_of(fn)
+        want = set(SAMPLE_SLOTS) | {'val'}
         dicts = [w_ for w_ in astx.walk(fn.node) if isinstance(w_, ast.Dict) and
-                 {astx.const_str(k) for k in w_.keys if k is not None} & set(SAMPLE_SLOTS)]
+                 {astx.const_str(k) for k in w_.keys if k is not None} & want]
         if len(dicts) != 1:
             out.unsure(fn, fn.node, f'expected one sample dictionary literal, found {len(dicts)}')
             continue
         d = dicts[0]
         st = astx.stmt_of(d)
         at = C.at(st)
-        keys = [astx.const_str(k) for k in d.keys]
+        slotmap = {astx.const_str(k): (v_, at) for k, v_ in zip(d.keys, d.values) if astx.const_str(k)}
+        # entries added afterwards: `E = {...}; E['units'] = ...` (same dictionary object, same iteration)
+        if isinstance(st, ast.Assign) and st.value is d and len(st.targets) == 1 and isinstance(st.targets[0], ast.Name):
+            en = st.targets[0].id
+            late_ok = True
+            for n_ in C.g.nodes:
+                if n_.kind == 'stmt' and isinstance(n_.ast, ast.Assign) and len(n_.ast.targets) == 1:
+                    t_ = n_.ast.targets[0]
+                    if isinstance(t_, ast.Subscript) and isinstance(t_.value, ast.Name) and t_.value.id == en and \
+                            C.rd.defs(n_, en) == {at}:
+                        k_ = astx.const_str(t_.slice)
+                        if k_ is None or C.g.dominated_by(n_, [at], labels=cfgm.noexc) is not None:
+                            late_ok = False
+                        elif any(isinstance(a_, (ast.If, ast.Try, ast.While)) and a_ is not fn.node and
+                                 astx.in_body(st, a_, 'body') is False and
+                                 (astx.in_body(n_.ast, a_, 'body') or astx.in_body(n_.ast, a_, 'orelse'))
+                                 for a_ in astx.ancestors(n_.ast)):
+                            late_ok = False      # conditional entry
+                        else:
+                            slotmap[k_] = (n_.ast.value, n_)
+            if not late_ok:
+                out.unsure(fn, st, f'entries of `{en}` are added conditionally / under computed keys')
+                continue
+        keys = list(slotmap)
         if 'val' not in keys:
             out.bad(fn, st, "the sample dictionary has no 'val' entry", key='slot-val')
             continue
@@ -2958,8 +3012,8 @@ def slots(repo, out):
                 out.bad(fn, st, f"the sample dictionary drops the factor's {slot!r}: the value is applied in the wrong "
                         f"{'units' if slot == 'units' else 'elements of the variable'}", key=f'slot-{slot}')
                 continue
-            v = d.values[keys.index(slot)]
-            k = _slot_read(C, v, at)
+            v, v_at = slotmap[slot]
+            k = _slot_read(C, v, v_at)
             if k is None:
                 out.unsure(fn, st, f'value of {slot!r} not recognised: {astx.src(v)}')
             elif k != slot:
@@ -3438,4 +3492,54 @@ selftest(
     Twin('twin-units-nested-inverted', DRV, _UNITS_OLD, _units_nested()),
     Mutant('units-nested-direction', DRV, _UNITS_OLD, _units_nested(a="src_units, meta['units']"), 'C23.units'),
     Mutant('units-nested-wrong-side', DRV, _UNITS_OLD, _units_nested(outer="units is not None"), 'C23.units'),
+)
+
+
+# =========================================================================== self-test (third robustness round)
+def _next_temp(key="name", hi="meta['upper']", guard=""):
+    ind = '    ' if guard else ''
+    return ("        rng = self._rng\n\n        case = {}\n        for name, meta in self._var_dict.items():\n"
+            f"            sample = rng.uniform(meta['lower'], {hi}, sizes[name])\n{guard}"
+            f"            {ind}case[{key}] = {{\n"
+            f"                {ind}'val': sample,\n"
+            f"                {ind}'units': meta.get('units', None),\n                {ind}'indices': meta.get('indices', None)\n"
+            f"            {ind}}}\n        self._run_count += 1\n        return case\n")
+
+
+_AG_NEXT_OLD = ("        d = {}\n        vals = next(self._iter)\n\n"
+                "        for i, name in enumerate(self._var_dict.keys()):\n"
+                "            d[name] = {'val': vals[i],\n"
+                "                       'units': self._var_dict[name].get('units', None),\n"
+                "                       'indices': self._var_dict[name].get('indices', None)}\n"
+                "        self._run_count += 1\n        return d\n")
+
+
+def _ag_entry(idx="meta.get('indices', None)", guard=""):
+    ind = '    ' if guard else ''
+    return ("        vals = next(self._iter)\n        case = {}\n\n"
+            "        for i, (name, meta) in enumerate(self._var_dict.items()):\n"
+            "            entry = {'val': vals[i]}\n"
+            "            entry['units'] = meta.get('units', None)\n"
+            f"{guard}            {ind}entry['indices'] = {idx}\n"
+            "            case[name] = entry\n"
+            "        self._run_count = self._run_count + 1\n        return case\n")
+
+
+selftest(
+    'C23',
+    # draw kept in a temporary and stored into the entry of the variable (benign C23_b3_1)
+    Twin('twin-uniform-draw-temp-entry', SU, _NEXT_SU_OLD, _next_temp()),
+    Mutant('uniform-draw-temp-wrong-key', SU, _NEXT_SU_OLD, _next_temp(key="'x'"), 'C23.uniform'),
+    Mutant('uniform-draw-temp-bounds', SU, _NEXT_SU_OLD, _next_temp(hi="meta['lower']"), 'C23.uniform'),
+    Mutant('uniform-draw-temp-dropped', SU, _NEXT_SU_OLD, _next_temp(guard="            if sizes[name] > 1:\n"), 'C23.uniform'),
+    # sample entry built incrementally, items() instead of keys + lookup (benign C23_b3_2)
+    Twin('twin-slots-entry-built-stepwise', AG, _AG_NEXT_OLD, _ag_entry()),
+    Mutant('slots-entry-stepwise-indices-from-units', AG, _AG_NEXT_OLD, _ag_entry(idx="meta.get('units', None)"), 'C23.slots'),
+    Mutant('slots-entry-stepwise-missing', AG, _AG_NEXT_OLD,
+           _ag_entry().replace("            entry['indices'] = meta.get('indices', None)\n", ""), 'C23.slots'),
+    # keyword arguments at the consumer (benign C23_b3_3) -- already accepted, pinned here
+    Twin('twin-slots-consumer-keywords-2', AD, "self._problem().model.set_val(var, val, units, idxs)",
+         "self._problem().model.set_val(var, val, units=units, indices=idxs)"),
+    Mutant('slots-consumer-keywords-swapped', AD, "self._problem().model.set_val(var, val, units, idxs)",
+           "self._problem().model.set_val(var, val, units=idxs, indices=units)", 'C23.slots'),
 )
